@@ -17,6 +17,7 @@ import (
 	"github.com/jotaen/klog/klog/parser/txt"
 
 	"klogverif/clidrv"
+	"klogverif/docgen"
 	"klogverif/fw"
 	sm "klogverif/specmodel"
 )
@@ -32,16 +33,25 @@ func c10Families(tier fw.Tier) []docFamily {
 				fs = append(fs, f)
 			}
 		}
+		// ALL rejected token strings (positions only; the first-line clause applies where the reference has a verdict)
+		k := 5
+		if tier == fw.Thorough {
+			k = 6
+		}
+		ts := docgen.TokenSpace{Alphabet: c10Alphabet, MaxLen: k}
+		fs = append(fs, docFamily{"tokens", ts.Count(), func(i int) (string, []sm.Record, bool) { return ts.At(i), nil, false }})
 		return fs
 	})
 }
+
+var c10Alphabet = []string{"2020-01-01", "\n", "\r\n", " ", "    ", "\t", "1h", "x", "é中", "8:00 - ", "?", "(8h!)", "\u00a0"}
 
 func init() {
 	fw.Register(&fw.Check{
 		ID:    "C10",
 		Title: "Syntax errors are reported at the right place and can always be displayed",
 		Rule: "all klog-rejected texts among: every single rule-violating edit (103 operators x every line of ~100 valid base documents: first/middle/last line, inside multi-line summaries, after blank runs, any record), " +
-			"pairs of edits (6 bases quick / 60 thorough), the invalid members of FA1 (second open range) and of the time/duration literal sweeps; each parsed serially and with 2 and 3 workers. " +
+			"pairs of edits (6 bases quick / 60 thorough), the invalid members of FA1 (second open range) and of the time/duration literal sweeps; and ALL rejected strings of <=5 (quick) / 6 (thorough) tokens over {date, LF, CRLF, space, 4 spaces, tab, 1h, x, é中, '8:00 - ', ?, (8h!), U+00A0}; each parsed serially and with 2 and 3 workers. " +
 			"non-trivial = rejected by klog; distinct by text hash. The expected first faulty line comes from the reference parser (first physical line at which no continuation of the grammar exists).",
 		Assumptions: []string{
 			"independent physical-line splitter; specmodel.Parse for the first offending line (only for texts without don't-care zones and without Zs-only lines, see known finding KF-C01-zs-blank-line)",
@@ -57,7 +67,7 @@ func init() {
 				if text == "" {
 					continue
 				}
-				c10Text(c, f.name, i, text, (c.Tier == fw.Thorough && i%8 == 0) || i%40 == 0)
+				c10Text(c, f.name, i, text, f.name != "tokens" && ((c.Tier == fw.Thorough && i%8 == 0) || i%40 == 0))
 			}
 		},
 		Replay: func(c *fw.Ctx, raw json.RawMessage) {
